@@ -74,9 +74,16 @@ func doLogins(n, par int) ([]login, error) {
 		wg.Add(1)
 		go func(g int) {
 			defer wg.Done()
+			lastCookie := ""
 			for i := g; i < n; i += par {
 				at := time.Now()
-				resp, err := filter.Check(context.Background(), httpReq("https", "app", "/x", "", nil))
+				// every other request comes from a browser whose previous login is still pending (it presents the cookie of
+				// the redirect before): the new redirect must be as fresh as any other
+				var hdrs map[string]string
+				if (i/par)%2 == 1 && lastCookie != "" {
+					hdrs = map[string]string{"cookie": lastCookie}
+				}
+				resp, err := filter.Check(context.Background(), httpReq("https", "app", "/x", "", hdrs))
 				if err != nil || resp.GetDeniedResponse() == nil {
 					mu.Lock()
 					firstErr = fmt.Errorf("no login redirect: %v", err)
@@ -90,6 +97,7 @@ func doLogins(n, par int) ([]login, error) {
 				if u == nil || len(cs) != 1 {
 					continue
 				}
+				lastCookie = cs[0].Name + "=" + cs[0].Value
 				out[i] = login{Sid: cs[0].Value, Nonce: u.Query().Get("nonce"), State: u.Query().Get("state"), Challenge: u.Query().Get("code_challenge"), At: at}
 			}
 		}(g)
